@@ -14,7 +14,7 @@ ASSUMPTIONS = ["a split is neutral up to the rounding to whole shares (bound |q'
 
 
 def gen(rnd, k):
-    opts = {"p_div": 0.8, "p_split": 0.5, "p_delist": 0.35, "p_expire": 0.6}
+    opts = {"p_div": 0.8, "p_split": 0.5, "p_delist": 0.35, "p_expire": 0.6, "p_special_div": 0.35}     # special dividends: two rows sharing a record date
     if k % 7 == 6:
         opts["overlap_div"] = True
     if k % 5 == 4:
